@@ -1,6 +1,6 @@
 """C18 - reading a received packet never overruns the caller's buffer (RxFetch.tla / WireTrace.tla)."""
 import glob, json, os, re
-from . import core, purefn, wirefam
+from . import core, purefn, wirefam, macfam
 
 PID = "C18"
 _CASE = re.compile(r'"reported",\s*(\d+),\s*"configured",\s*(\d+)')
@@ -26,6 +26,19 @@ def run():
                       f"buffer={ev['bufsz']} status={ev['status']}: {mm[0][:260]}")
     wirefam.report_known(rep, res, sigs)
     states, gen, accepted = wirefam.totals(res)
+    # "... and the LoRaWAN adapter hands the MAC exactly those bytes": the MAC's own RadioBuffer, sized 64 / 128 / 33
+    # bytes, filled to N-2 .. N bytes by an authentic downlink (RX1, RX2, Class C) or a JoinAccept with CFList;
+    # MacTrace.tla decides what each frame must do (accepted, counters, delivered payload, MAC answers)
+    bd = os.path.join(wd, "bufwalk")
+    os.makedirs(bd, exist_ok=True)
+    bout = core.run_vh("bufwalk", bd, shards=core.NCPU)
+    btraces = sorted(glob.glob(os.path.join(bd, "mac.*.ndjson")))
+    bres, bsigs = macfam.validate(PID, btraces, bd)
+    macfam.report(rep, PID, bres, bsigs, "a reception that (nearly) fills the MAC's radio buffer is not handed to the MAC as received")
+    bn, bhist, bkinds, bdistinct = macfam.summarise(btraces)
+    states += sum(r["distinct"] for r in bres)
+    gen += sum(r["generated"] for r in bres)
+    accepted += bhist - sum(1 for r in bres if not r["accepted"])
     n = nontrivial = 0
     kinds, outcomes = {}, {"ok": 0, "err": 0, "panic": 0}
     classes = set()
@@ -52,6 +65,10 @@ def run():
                 "chip defines is > 0 (bytes must be copied from the right chip addresses or the call refused)",
         "cases_per_chip_and_path": kinds, "outcomes": outcomes, "behaviour_classes_covered": len(classes),
         "samples": samples,
+        "mac_radio_buffer_walk": {"histories": bhist, "events": bn,
+                                  "rule": "async devices built with a radio buffer of 64, 128 and 33 bytes (EU868, US915): an uplink answered in RX1, in RX2 or "
+                                          "between the windows (Class C) by an authentic downlink of N-2, N-1 and N bytes on air, with and without FOpts; a "
+                                          "33-byte JoinAccept with CFList into the 33-byte buffer; validated by MacTrace.tla"},
         "exhaustive": thorough,
         "explanation": ("RadioKind::get_rx_payload: all 256 lengths x 256 offsets x buffer sizes {0,1,12,64,255,256} x explicit/implicit "
                         "header x 12 status bytes (all 8 command-status codes) for SX1262, and the same length/offset/buffer/header space "
@@ -85,4 +102,6 @@ def run():
 def replay(path):
     with open(path) as f:
         r = json.load(f)
+    if "ops" in r:
+        return macfam.replay(PID, path)
     return wirefam.replay_events(PID, [r], lambda ev: ("fetch", ev["vh"][1:]))
